@@ -189,8 +189,8 @@ class Parser:
             (_closepar, pytools.lex.RE(r"\)")),
             (_openbracket, pytools.lex.RE(r"\[")),
             (_closebracket, pytools.lex.RE(r"\]")),
-            (_true, pytools.lex.RE(r"True")),
-            (_false, pytools.lex.RE(r"False")),
+            (_true, pytools.lex.RE(r"True\b")),
+            (_false, pytools.lex.RE(r"False\b")),
             (_identifier, pytools.lex.RE(r"[@$a-z_A-Z_][@$a-zA-Z_0-9]*")),
             (_whitespace, pytools.lex.RE("[ \n\t]*")),
             (_comma, pytools.lex.RE(",")),
@@ -505,7 +505,8 @@ class Parser:
             # The precedence makes the comma left-associative.
 
             pstate.advance()
-            if pstate.is_at_end() or pstate.next_tag() is _closepar:
+            if pstate.is_at_end() or pstate.next_tag() in (
+                    _closepar, _closebracket):
                 if isinstance(left_exp, (tuple, list)) \
                         and not isinstance(left_exp, FinalizedContainer):
                     # left_expr is a container with trailing commas
